@@ -29,6 +29,21 @@ func wireFor(proto string, tag byte, payload byte) []byte {
 	return []byte{tag, payload}
 }
 
+// padded inserts filler before the last two bytes (tag, payload) so that the part of w after its first hdr bytes - what
+// the application will see as body, at least - is n bytes long; a few marker bytes make the content position-dependent.
+func padded(w []byte, n int, mark byte) []byte {
+	if n <= 2 {
+		return w
+	}
+	fill := make([]byte, n-2)
+	for _, i := range []int{0, len(fill) / 3, len(fill) / 2, len(fill) - 1} {
+		fill[i] = mark + byte(i)
+	}
+	out := append([]byte{}, w[:len(w)-2]...)
+	out = append(out, fill...)
+	return append(out, w[len(w)-2:]...)
+}
+
 // VH17a_send: every send outcome: on failure the message stays with the caller
 // (not released, body intact); a shared message (extra reference held by the
 // caller) is never written by the library.
@@ -210,6 +225,18 @@ func VH17b_recv() {
 	if w == nil {
 		verif.Assume(false)
 	}
+	// optionally the body is padded to a length on a boundary that the code itself names (c-1, c, c+1 for the integer
+	// constants of the message pool, the core and the transports: pool classes, copy thresholds, inline buffers)
+	padTo := 0
+	if bmax := verif.Param("bmax", 0); bmax > 0 {
+		const scope = "go.nanomsg.org/mangos/v3,go.nanomsg.org/mangos/v3/internal/core,go.nanomsg.org/mangos/v3/transport"
+		padTo = verif.Boundary(scope, bmax, verif.Choice("boundary", verif.BoundaryCount(scope, bmax)))
+		if padTo < verif.Param("bmin", 2) {
+			verif.Assume(false)
+		}
+		w = padded(w, padTo, 0x5a)
+		verif.Reach("boundary-length")
+	}
 	p1.Deliver(w)
 	var m *mangos.Message
 	var err error
@@ -234,6 +261,9 @@ func VH17b_recv() {
 	hcopy := append([]byte{}, m.Header...)
 	bcopy := append([]byte{}, m.Body...)
 	verif.Assert(len(m.Body) >= 2 && m.Body[len(m.Body)-2] == 'A' && m.Body[len(m.Body)-1] == pay, lab+"/received-body")
+	if padTo > 0 {
+		verif.Assert(len(m.Body) >= padTo, lab+"/received-length")
+	}
 	// more traffic through the same pool classes
 	for i := 0; i < verif.Param("more", 2); i++ {
 		if proto == "req" {
@@ -241,6 +271,9 @@ func VH17b_recv() {
 			verif.Quiesce()
 		}
 		if w2 := reply('B', verif.Byte("later")); w2 != nil {
+			if padTo > 0 {
+				w2 = padded(w2, padTo-i, 0xc3) // same pool class, different content
+			}
 			p1.Deliver(w2)
 		}
 		var m2 *mangos.Message
